@@ -114,39 +114,34 @@ Section C14.
      streaming X_queue), which the next successful fit / the next window_size updates overwrite before they
      are read.  Not proved as an observational equivalence; C14_reset_unfits covers these classes. *)
 
-  (** Dimension mismatch at compare: every class that runs _check_compare_dimensions (all but CVMTest; the
-      streaming KS test has no compare) raises MismatchDimensionError, after any history, whenever reference
-      and test sample have at most two axes and differ in dimensionality. *)
-  Theorem C14_dim_mismatch_partial : forall c ops r X, checks_cmp_dims (c_cls Prm c) = true ->
+  (** Dimension mismatch at compare: EVERY class with a compare method (all 17 batch classes, CVMTest included,
+      and the streaming MMD), after ANY history, for ANY number of axes: a test sample exposing .shape whose
+      dimensionality (number of axes, extent of every axis but the first) differs from the reference's raises
+      MismatchDimensionError and changes nothing. *)
+  Theorem C14_dim_mismatch : forall c ops r X, has_compare (c_cls Prm c) = true ->
     let s := exec c init ops in
-    eff_ref P Prm c s = Some r -> a_attr P X = true ->
-    ndim P r <= 2 -> ndim P X <= 2 -> same_dims P r X = false ->
+    eff_ref P Prm c s = Some r -> a_attr P X = true -> same_dims P r X = false ->
     step c s (Cmp X) = (s, Raise MismatchDimensionError).
   Proof. exact (dim_mismatch P Prm V lib_cmp lib_fit_fails lib_sort lib_stack). Qed.
-  (* FULL: the same without the two [ndim <= 2] hypotheses and for CVMTest.  Both are FALSE of the code:
-     see C14_dim_mismatch_CVM_refuted (F24) and C14_dim_mismatch_3d_refuted below. *)
 
-  (** Univariate classes reject, at fit, every input whose second axis is not 1 (so every (n,k), k <> 1, and
-      every (n,k,...) with k <> 1) with DimensionError; the state is unchanged. *)
-  Theorem C14_univariate_rejects_multicolumn_partial : forall c s X,
-    univariate (c_cls Prm c) = true -> a_attr P X = true ->
-    ((exists k, shape1 P X = Some k /\ k <> 1) \/ (ndim P X <= 2 /\ multi_column P X = true)) ->
+  (** Univariate classes (all but MMD / streaming MMD) reject at fit, with DimensionError and no change of
+      state, every input with more than one value per row -- whatever the number of axes. *)
+  Theorem C14_univariate_rejects_multicolumn : forall c s X,
+    univariate (c_cls Prm c) = true -> a_attr P X = true -> multi_column P X = true ->
+    step c s (Fit X) = (s, Raise DimensionError).
+  Proof. exact (univariate_rejects_multicolumn P Prm V lib_cmp lib_fit_fails lib_sort lib_stack). Qed.
+
+  (** Every class rejects inputs with more than two axes, and 0-d arrays / NumPy scalars, at fit. *)
+  Theorem C14_bad_rank_rejected : forall c s X, a_attr P X = true -> (2 < ndim P X \/ a_shape P X = []) ->
     step c s (Fit X) = (s, Raise DimensionError).
   Proof.
-    intros c s X Hu HX [[k [Hk Hne]]|[Hn Hm]].
-    - exact (univariate_rejects_axis1 P Prm V lib_cmp lib_fit_fails lib_sort lib_stack c s X k Hu HX Hk Hne).
-    - exact (univariate_rejects_multicolumn_2d P Prm V lib_cmp lib_fit_fails lib_sort lib_stack c s X Hu HX Hn Hm).
+    intros c s X HX [H|H].
+    - exact (more_than_two_axes_rejected P Prm V lib_cmp lib_fit_fails lib_sort lib_stack c s X HX H).
+    - exact (zero_dim_rejected P Prm V lib_cmp lib_fit_fails lib_sort lib_stack c s X HX H).
   Qed.
-  (* FULL: [multi_column X = true -> DimensionError] for every ndim.  FALSE of the code for (n,1,j):
-     see C14_univariate_3d_refuted. *)
-
-  (** 0-d arrays and NumPy scalars are rejected by every class. *)
-  Theorem C14_zero_dim_rejected : forall c s X, a_attr P X = true -> a_shape P X = [] ->
-    step c s (Fit X) = (s, Raise DimensionError).
-  Proof. exact (zero_dim_rejected P Prm V lib_cmp lib_fit_fails lib_sort lib_stack). Qed.
 
   (** Non-array input without a .shape attribute (list, tuple, None, Python number): fit raises (the
-      AttributeError of reading X.shape, not the TypeError of _check_array, which is never reached for such
+      AttributeError of reading X.ndim, not the TypeError of _check_array, which is never reached for such
       input), compare raises MissingFitError or AttributeError; the state is unchanged.  Every class. *)
   Theorem C14_non_array_rejected : forall c s X, a_attr P X = false ->
     step c s (Fit X) = (s, Raise AttributeError) /\
@@ -159,62 +154,24 @@ Section C14.
   Qed.
 
   (** Any non-ndarray at fit (also one that exposes .shape): rejected with the state unchanged by every class
-      whose X_ref setter is the inherited one (all but CVMTest; the streaming KS test stores np.sort(X)). *)
-  Theorem C14_non_ndarray_rejected_at_fit_partial : forall c s X, a_nd P X = false ->
-    c_cls Prm c <> CVMTest -> c_cls Prm c <> IncrementalKSTest ->
+      that stores X itself, CVMTest included (the streaming KS test stores np.sort(X), see next theorem). *)
+  Theorem C14_non_ndarray_rejected_at_fit : forall c s X, a_nd P X = false ->
+    c_cls Prm c <> IncrementalKSTest ->
     fst (step c s (Fit X)) = s /\
     exists e, snd (step c s (Fit X)) = Raise e /\ (e = AttributeError \/ e = DimensionError \/ e = TypeError).
   Proof. exact (non_ndarray_rejected_fit P Prm V lib_cmp lib_fit_fails lib_sort lib_stack). Qed.
-  (* FULL: every class, and compare as well.  FALSE of the code: C14_non_array_fit_CVM_refuted,
-     C14_non_array_cmp_refuted. *)
+
+  (** For all 19 classes and every history: whatever X_ref (and the wrapped MMD's X_ref) holds is an ndarray. *)
+  Theorem C14_stored_reference_is_ndarray : forall c ops r,
+    (s_ref P (exec c init ops) = Some r \/ s_iref P (exec c init ops) = Some r) -> a_nd P r = true.
+  Proof. exact (stored_reference_is_ndarray P Prm V lib_cmp lib_fit_fails lib_sort lib_stack). Qed.
 
   (* ---------------------------------------------------------------- what the code does NOT guarantee *)
   Variables (p q : P) (prm : Prm).
 
-  (** F24. CVMTest: reference (6,), test sample (6,2) -- dimensionality differs, both have <= 2 axes, yet
-      compare passes every check and hands the arrays to SciPy. *)
-  Theorem C14_dim_mismatch_CVM_refuted :
-    exists c ops r X, c_cls Prm c = CVMTest /\
-      eff_ref P Prm c (exec c init ops) = Some r /\ a_attr P X = true /\ ndim P r <= 2 /\ ndim P X <= 2 /\
-      same_dims P r X = false /\
-      snd (step c (exec c init ops) (Cmp X)) = Ok (OLib (lib_cmp c r None X)).
-  Proof.
-    exists (mk Prm prm CVMTest), [Fit (nd P [6] p)], (nd P [6] p), (nd P [6; 2] q).
-    pose proof (dim_mismatch_CVM_witness P Prm V p q prm lib_cmp lib_fit_fails lib_sort lib_stack) as H.
-    simpl in H. simpl. intuition.
-  Qed.
-
-  (** _check_compare_dimensions looks at axis 1 only: for every univariate class that has the check,
-      reference (6,1) and test sample (5,1,2) pass. *)
-  Theorem C14_dim_mismatch_3d_refuted : forall k, checks_cmp_dims k = true -> univariate k = true ->
-    exists c ops r X, c_cls Prm c = k /\
-      eff_ref P Prm c (exec c init ops) = Some r /\ same_dims P r X = false /\
-      snd (step c (exec c init ops) (Cmp X)) = Ok (OLib (lib_cmp c r None X)).
-  Proof.
-    intros k H1 H2.
-    exists (mk Prm prm k), [Fit (nd P [6; 1] p)], (nd P [6; 1] p), (nd P [5; 1; 2] q).
-    split; [reflexivity|]. exact (dim_mismatch_3d_witness P Prm V p q prm lib_cmp lib_fit_fails lib_sort lib_stack k H1 H2).
-  Qed.
-
-  (** _check_fit_dimensions looks at axis 1 only: every univariate batch class accepts (6,1,2). *)
-  Theorem C14_univariate_3d_refuted : forall k, univariate k = true -> k <> IncrementalKSTest ->
-    exists c X, c_cls Prm c = k /\ multi_column P X = true /\
-      snd (step c init (Fit X)) = Ok ONone /\ s_ref P (fst (step c init (Fit X))) = Some X.
-  Proof.
-    intros k H1 H2. exists (mk Prm prm k), (nd P [6; 1; 2] p). split; [reflexivity|].
-    exact (univariate_3d_witness P Prm V p prm lib_cmp lib_fit_fails lib_sort lib_stack k H1 H2).
-  Qed.
-
-  (** CVMTest's X_ref setter dropped _check_array: a non-ndarray exposing .shape is stored as reference. *)
-  Theorem C14_non_array_fit_CVM_refuted :
-    exists c X, c_cls Prm c = CVMTest /\ a_nd P X = false /\
-      snd (step c init (Fit X)) = Ok ONone /\ s_ref P (fst (step c init (Fit X))) = Some X.
-  Proof.
-    exists (mk Prm prm CVMTest), (duck P [6] p). split; [reflexivity|].
-    exact (non_array_fit_CVM_witness P Prm V p prm lib_cmp lib_fit_fails lib_sort lib_stack).
-  Qed.
-
-  (** No class checks the type of the test sample: a non-ndarray exposing .shape reaches the library. *)
+  (** No class checks the TYPE of the test sample: a non-ndarray exposing .shape (a pandas Series would be one)
+      passes compare's checks and reaches the library.  (Observation; lists, tuples, None and scalars are
+      rejected: C14_non_array_rejected.) *)
   Theorem C14_non_array_cmp_refuted : forall k, has_compare k = true -> univariate k = true ->
     exists c r X, c_cls Prm c = k /\ a_nd P X = false /\
       snd (step c (exec c init [Fit r]) (Cmp X)) = Ok (OLib (lib_cmp c r None X)).
@@ -223,13 +180,40 @@ Section C14.
     exact (non_array_cmp_witness P Prm V p q prm lib_cmp lib_fit_fails lib_sort lib_stack k H1 H2).
   Qed.
 
-  (** MMD.fit assigns X_ref before the kernel computation: if that raises, the detector keeps the new
-      reference with the previous _expected_k_xx (here: none). *)
-  Theorem C14_mmd_failed_fit_not_atomic : lib_fit_fails (mk Prm prm MMD) (nd P [6; 2; 2] p) = true ->
-    let c := mk Prm prm MMD in let X := nd P [6; 2; 2] p in
+  (** MMD.fit assigns X_ref before the kernel computation: if that raises (an empty sample with chunk_size
+      None does it), the detector keeps the new reference with the previous _expected_k_xx (here: none). *)
+  Theorem C14_mmd_failed_fit_not_atomic : lib_fit_fails (mk Prm prm MMD) (nd P [0; 2] p) = true ->
+    let c := mk Prm prm MMD in let X := nd P [0; 2] p in
     snd (step c init (Fit X)) = Raise OtherError /\ s_ref P (fst (step c init (Fit X))) = Some X /\
     s_aux P (fst (step c init (Fit X))) = None.
   Proof. exact (mmd_failed_fit_witness P Prm V p prm lib_cmp lib_fit_fails lib_sort lib_stack). Qed.
+
+  (* ---------------------------------------------------------------- the chains before the repairs *)
+
+  (** F24 (606a948): CVMTest's compare chain was [fitted; samples]: reference (6,), sample (6,2) passed. *)
+  Example C14_before_606a948 :
+    let r := nd P [6] p in let X := nd P [6; 2] q in
+    run_checks P cvm_cmp_old (Some r) X = Ok tt /\
+    run_checks P (d_cmp (describe CVMTest)) (Some r) X = Raise MismatchDimensionError.
+  Proof. exact (old_cvm_cmp_witness P p q). Qed.
+
+  (** a5ac796: CVMTest's fit chain was [fit dims; samples]: a non-ndarray exposing .shape was stored. *)
+  Example C14_before_a5ac796 :
+    let X := duck P [6] p in
+    run_checks P cvm_fit_old None X = Ok tt /\ run_checks P (d_fit (describe CVMTest)) None X = Raise TypeError.
+  Proof. exact (old_cvm_fit_witness P p). Qed.
+
+  (** 7265f6c: _check_compare_dimensions compared axis 1 only: reference (6,1), sample (5,1,2) passed. *)
+  Example C14_before_7265f6c :
+    let r := nd P [6; 1] p in let X := nd P [5; 1; 2] q in
+    chk_cmp_dims_axis1 P r X = Ok tt /\ chk_cmp_dims P (Some r) X = Raise MismatchDimensionError.
+  Proof. exact (old_cmp_dims_witness P p q). Qed.
+
+  (** 422d589: _check_fit_dimensions looked at axis 1 only: univariate classes accepted (6,1,2). *)
+  Example C14_before_422d589 :
+    let X := nd P [6; 1; 2] p in
+    chk_fit_dims_axis1 P true X = Ok tt /\ chk_fit_dims P true X = Raise DimensionError.
+  Proof. exact (old_fit_dims_witness P p). Qed.
 End C14.
 
 Print Assumptions C14_compare_pure.
@@ -244,23 +228,24 @@ Print Assumptions C14_needs_fit_history.
 Print Assumptions C14_rejected_fit_keeps_state.
 Print Assumptions C14_reset_unfits.
 Print Assumptions C14_reset_is_fresh.
-Print Assumptions C14_dim_mismatch_partial.
-Print Assumptions C14_univariate_rejects_multicolumn_partial.
-Print Assumptions C14_zero_dim_rejected.
+Print Assumptions C14_dim_mismatch.
+Print Assumptions C14_univariate_rejects_multicolumn.
+Print Assumptions C14_bad_rank_rejected.
 Print Assumptions C14_non_array_rejected.
-Print Assumptions C14_non_ndarray_rejected_at_fit_partial.
-Print Assumptions C14_dim_mismatch_CVM_refuted.
-Print Assumptions C14_dim_mismatch_3d_refuted.
-Print Assumptions C14_univariate_3d_refuted.
-Print Assumptions C14_non_array_fit_CVM_refuted.
+Print Assumptions C14_non_ndarray_rejected_at_fit.
+Print Assumptions C14_stored_reference_is_ndarray.
 Print Assumptions C14_non_array_cmp_refuted.
 Print Assumptions C14_mmd_failed_fit_not_atomic.
+Print Assumptions C14_before_606a948.
+Print Assumptions C14_before_a5ac796.
+Print Assumptions C14_before_7265f6c.
+Print Assumptions C14_before_422d589.
 
 (** Non-vacuity on a concrete instance: payload ids are numbers, the library result is the triple
     (reference id, id of the array the kernel term was computed from, test id). *)
 Definition cmpN (c : cfg unit) (r : arr nat) (a : option (arr nat)) (X : arr nat) : nat * option nat * nat :=
   (a_id nat r, option_map (a_id nat) a, a_id nat X).
-Definition failsN (c : cfg unit) (X : arr nat) : bool := negb (ndim nat X <=? 2).
+Definition failsN (c : cfg unit) (X : arr nat) : bool := match a_shape nat X with O :: _ => true | _ => false end.
 Definition sortN (X : arr nat) : arr nat := nd nat (a_shape nat X) (100 + a_id nat X).
 Definition stackN (l : list (arr nat)) : option (arr nat) := Some (nd nat [length l] 7).
 Definition stepN := step nat unit _ cmpN failsN sortN stackN.
@@ -277,6 +262,10 @@ Example C14_nonvacuous :
   snd (stepN (K MMD) (execN (K MMD) init ops) (Cmp (nd nat [4; 3] 3))) = Raise MismatchDimensionError /\
   snd (stepN (K MMD) (execN (K MMD) init (ops ++ [Rst])) (Cmp (nd nat [4; 2] 3))) = Raise MissingFitError /\
   snd (stepN (K KSTest) init (Fit (nd nat [6; 2] 2))) = Raise DimensionError /\
+  snd (stepN (K KSTest) init (Fit (nd nat [6; 1; 2] 2))) = Raise DimensionError /\
+  snd (stepN (K CVMTest) (execN (K CVMTest) init [Fit (nd nat [6] 2)]) (Cmp (nd nat [6; 2] 3))) = Raise MismatchDimensionError /\
+  snd (stepN (K EMD) (execN (K EMD) init [Fit (nd nat [6; 1] 2)]) (Cmp (nd nat [5; 1; 2] 3))) = Raise MismatchDimensionError /\
+  snd (stepN (K CVMTest) init (Fit (duck nat [6] 2))) = Raise TypeError /\
   snd (stepN (K KSTest) init (Fit (plain nat 2))) = Raise AttributeError /\
   snd (stepN (K IncrementalKSTest) (execN (K IncrementalKSTest) init [Fit (nd nat [6] 2); Upd (plain nat 1); Upd (plain nat 2)])
          (Upd (plain nat 3))) = Ok (OLib (102, None, 7)).
